@@ -6,6 +6,7 @@ package main
 import (
 	"encoding/json"
 	"fmt"
+	"hash/fnv"
 	"math"
 	"math/big"
 	"sort"
@@ -257,19 +258,97 @@ func Snapshot(df *dataframe.DataFrame) Frame {
 
 // Build creates a live frame; every column gets spare capacity (appended cell by cell)
 // so that in-place appends through an aliasing slice would be visible.
-func Build(f Frame) *dataframe.DataFrame {
+func Build(f Frame) *dataframe.DataFrame { return buildFrame(f, false) }
+
+// buildFrame: byHand writes every column into the map directly (what the frame is meant to be); otherwise the
+// public constructors are used where they can be
+func buildFrame(f Frame, byHand bool) *dataframe.DataFrame {
 	df := dataframe.NewDataFrame()
 	if len(f.Cols)%2 == 1 {
 		df = goframe.NewDataFrame() // the root package's wrapper
 	}
-	for _, c := range f.Cols {
+	for ci, c := range f.Cols {
 		data := []any{}
 		for _, v := range c.Data {
 			data = append(data, v.ToAny())
 		}
-		df.Columns[string(c.Key)] = &dataframe.Column[any]{Name: string(c.Name), Data: data}
+		name := string(c.Name)
+		if c.Key == c.Name && !byHand {
+			// the public constructors, in turn (a column whose name differs from its key can only be made by hand);
+			// whatever they do to the name or the cells shows as a difference from the frame that was asked for
+			var err error = errSkip
+			switch buildVariant(c, ci) {
+			case 1:
+				err = df.AddColumn(dataframe.ConvertToAnyColumn(dataframe.NewColumn(name, data)))
+			case 2:
+				err = dataframe.AddTypedColumn(df, goframe.NewColumn(name, data))
+			case 3:
+				err = addTyped(df, name, data)
+			}
+			if err == nil {
+				continue
+			}
+			if got, ok := df.Columns[name]; ok && err != errSkip && got != nil {
+				delete(df.Columns, name)
+			}
+		}
+		df.Columns[string(c.Key)] = &dataframe.Column[any]{Name: name, Data: data}
 	}
 	return df
+}
+
+var errSkip = fmt.Errorf("built by hand")
+
+// buildVariant: which way a column is built, decided by its content (so that a replay builds it the same way)
+func buildVariant(c Col, ci int) int {
+	h := fnv.New32a()
+	h.Write([]byte(c.Key))
+	fmt.Fprintf(h, "|%d|%d", len(c.Data), ci)
+	for _, v := range c.Data {
+		fmt.Fprintf(h, "|%s%s%s%s%v", v.T, v.I, v.F, v.S, v.B)
+	}
+	return int(h.Sum32()>>3) % 4
+}
+
+// addTyped adds the column through AddTypedColumn as a []float64, []int, []string or []bool column when every
+// cell has that type (no nils), else as a []any column.
+func addTyped(df *dataframe.DataFrame, name string, data []any) error {
+	if len(data) == 0 {
+		return errSkip
+	}
+	switch data[0].(type) {
+	case float64:
+		out := make([]float64, 0, len(data))
+		for _, v := range data {
+			x, ok := v.(float64)
+			if !ok {
+				return dataframe.AddTypedColumn(df, dataframe.NewColumn(name, data))
+			}
+			out = append(out, x)
+		}
+		return dataframe.AddTypedColumn(df, dataframe.NewColumn(name, out))
+	case int:
+		out := make([]int, 0, len(data))
+		for _, v := range data {
+			x, ok := v.(int)
+			if !ok {
+				return dataframe.AddTypedColumn(df, dataframe.NewColumn(name, data))
+			}
+			out = append(out, x)
+		}
+		return dataframe.AddTypedColumn(df, dataframe.NewColumn(name, out))
+	case string:
+		out := make([]string, 0, len(data))
+		for _, v := range data {
+			x, ok := v.(string)
+			if !ok {
+				return dataframe.AddTypedColumn(df, dataframe.NewColumn(name, data))
+			}
+			out = append(out, x)
+		}
+		return dataframe.AddTypedColumn(df, dataframe.NewColumn(name, out))
+	}
+	return dataframe.AddTypedColumn(df, dataframe.NewColumn(name, data))
 }
 
 func rowToKVs(m map[string]any) []KV {
